@@ -142,9 +142,9 @@ func cmdCheck(args []string) {
 		seed, _ = strconv.Atoi(s)
 	}
 	t0 := time.Now()
-	timeout := 10000
+	timeout := 30000
 	if *tier == "thorough" {
-		timeout = 60000
+		timeout = 120000
 	}
 	p, err := loadProgram(*repo)
 	if err != nil {
